@@ -259,6 +259,37 @@ func (ch *chainSpec) shape() string {
 	return b.String()
 }
 
+// class: the history part of a violation key — the last step ("!" = refused), whether a reload was refused
+// earlier in the history, and whether the tree applied a reload although a declared token had no value. The
+// complete history is in the message and in the replay file.
+func (ch *chainSpec) class() string {
+	if len(ch.Ops) == 0 || len(ch.Applied) != len(ch.Ops) {
+		return "undecided"
+	}
+	_, _, expected := ch.fold(ch.Applied)
+	last := len(ch.Ops) - 1
+	c := ch.Ops[last]
+	if !ch.Applied[last] {
+		c += "!"
+	}
+	refusedBefore, appliedUnresolvable := false, false
+	for i, ok := range ch.Applied {
+		if !ok && i < last {
+			refusedBefore = true
+		}
+		if ok && !expected[i] {
+			appliedUnresolvable = true
+		}
+	}
+	if refusedBefore {
+		c += "+refused-before"
+	}
+	if appliedUnresolvable {
+		c += "+applied-unresolvable"
+	}
+	return c
+}
+
 func (ch *chainSpec) id() string {
 	start := "unreferenced"
 	if ch.Member {
@@ -312,6 +343,8 @@ type chainSources struct {
 	kind, bad string
 	dir       string // files
 	prefix    string // environment variable names (process-wide: unique per world directory)
+	// holds: what put last wrote per source (the sources outlive a re-boot of the world; nobody else writes them)
+	holds map[string]string
 }
 
 func (w *world) chainSources() chainSources {
@@ -322,7 +355,10 @@ func (w *world) chainSources() chainSources {
 		}
 		return '_'
 	}, filepath.Base(w.dir))
-	return chainSources{kind: ch.Kind, bad: ch.Bad, dir: filepath.Join(w.dir, "src"), prefix: "C11C_" + tag + "_"}
+	if w.srcHolds == nil {
+		w.srcHolds = map[string]string{}
+	}
+	return chainSources{kind: ch.Kind, bad: ch.Bad, dir: filepath.Join(w.dir, "src"), prefix: "C11C_" + tag + "_", holds: w.srcHolds}
 }
 
 func (s chainSources) ref(name string) string {
@@ -334,6 +370,22 @@ func (s chainSources) ref(name string) string {
 
 // put makes source name hold value; ok=false makes it unresolvable in the world's way.
 func (s chainSources) put(name, value string, ok bool) error {
+	now := "=" + value
+	if !ok {
+		now = "unresolvable"
+	}
+	if s.holds[name] == now {
+		return nil
+	}
+	if err := s.write(name, value, ok); err != nil {
+		delete(s.holds, name)
+		return err
+	}
+	s.holds[name] = now
+	return nil
+}
+
+func (s chainSources) write(name, value string, ok bool) error {
 	if s.kind == "env" {
 		switch {
 		case ok:
@@ -461,10 +513,12 @@ func (ri *refInfo) unresolved(c cfgSpec) {
 
 // ---- enumeration ------------------------------------------------------------
 
-func chainOps(st chainState) []string {
+// referencedOnly: the content of s changes only while the Hookaidofile references it (quick tier; a content
+// change of an unreferenced source is, for the reference, the same step as "reload").
+func chainOps(st chainState, referencedOnly bool) []string {
 	ops := []string{"edit", "edit-other", "reload"}
 	for _, c := range []string{"v1", "v2", "bad"} {
-		if c != st.content {
+		if c != st.content && (st.member || !referencedOnly) {
 			ops = append(ops, "set:"+c) // setting the content it already has is "reload"
 		}
 	}
@@ -472,7 +526,7 @@ func chainOps(st chainState) []string {
 }
 
 // histories: every step sequence of length 1..maxLen from start.
-func histories(start chainState, maxLen int) [][]string {
+func histories(start chainState, maxLen int, referencedOnly bool) [][]string {
 	var out [][]string
 	var rec func(st chainState, prefix []string)
 	rec = func(st chainState, prefix []string) {
@@ -482,7 +536,7 @@ func histories(start chainState, maxLen int) [][]string {
 		if len(prefix) == maxLen {
 			return
 		}
-		for _, op := range chainOps(st) {
+		for _, op := range chainOps(st, referencedOnly) {
 			rec(st.step(op), append(prefix, op))
 		}
 	}
@@ -508,7 +562,8 @@ func meetsBad(start chainState, ops []string) bool {
 // chainSpecs enumerates the worlds.
 //
 //	quick:    file: / missing, focus ∈ {A, global, admin}, starts {referenced+v1, unreferenced+unresolvable}, all
-//	          histories of length 1..2; env: / unset, focus A, the same starts and histories
+//	          histories of length 1..2 in which the content of s changes only while the Hookaidofile references s
+//	          (42 per focus); env: / unset, focus A, the same starts and histories
 //	thorough: file: / missing, all four focus lists, all three starts, all histories of length 1..3;
 //	          env: / unset: the same with length 1..2; every other way of being unresolvable (file empty, blank,
 //	          directory; variable empty): all histories of length 1..2 in which the source is unresolvable at some
@@ -539,7 +594,7 @@ func chainSpecs(r *runner.Run) []cfgSpec {
 	}{{"file", "missing", []string{"A", "global", "admin"}}, {"env", "unset", []string{"A"}}} {
 		for _, focus := range kf.focus {
 			for _, s := range starts[:2] {
-				for _, ops := range histories(chainState{member: s.member, content: s.content}, 2) {
+				for _, ops := range histories(chainState{member: s.member, content: s.content}, 2, true) {
 					add(focus, kf.kind, kf.bad, s, ops, !(kf.kind == "file" && focus == "A"))
 				}
 			}
@@ -556,7 +611,7 @@ func chainSpecs(r *runner.Run) []cfgSpec {
 		for _, focus := range []string{"A", "B", "global", "admin"} {
 			for _, s := range starts {
 				st := chainState{member: s.member, content: s.content}
-				for _, ops := range histories(st, kb.maxLen) {
+				for _, ops := range histories(st, kb.maxLen, false) {
 					if kb.onlyBad && !meetsBad(st, ops) {
 						continue
 					}
